@@ -25,10 +25,12 @@ CHECKS = {
             "returns the same element and adds nothing) the parser returns the element built the first time; premise on the run: the classes of the final state are == to themselves (refl_stateb).",
             "full on the fragment (about four fifths of the generated cases); outside it (two DIFFERENT object schemas under one title - de-duplication compares with == and == is not a verdict congruence, K17; "
             "colliding attribute names K1; undeclared required names K5; type lists containing 'object') the verdicts are decided by the correspondence run and the Spec6 oracle only"),
-    "C11": ("Coq theorem (permutation + topological order + cycle refusal of the emission loop, all finite dependency maps) + regenerated paths table + vm_compute correspondence on identity graphs",
-            "The emission loop of orderer() is proved, for every dependency map, to yield a permutation in dependency order or to refuse a cycle; "
-            "get_children/get_object_classes are tied to the code by the generated paths table and by running the model on the identity graph of random element trees.",
-            "full for the loop; the child enumeration is modelled and checked by correspondence"),
+    "C11": ("Coq theorems: end-to-end orderer() on identity graphs (C11_end_to_end: self-reaching class => schema-parse error, else a complete topological order), exact reachability and termination of get_children, soundness/totality of the emission loop on all finite maps + regenerated paths table + vm_compute correspondence on identity graphs with the theorem's premises (wf_graphb, boundedb) evaluated per graph",
+            "orderer() is proved end to end on the identity-graph model: get_children terminates and yields exactly the reachable nodes (shared seen set, cycles, sharing), the dependency map it "
+            "builds is closed, a class reaching itself is refused with the schema-parse error and nothing else, and otherwise the order lists every class once with everything a class reaches before it "
+            "(unique class names = the routine's documented precondition); any order returned is sound even without that precondition for direct references. "
+            "The identity graph of a live element tree (_get_path, isinstance) is tied to the code by the generated paths table and by running the model on the graph of random element trees.",
+            "full for orderer() on the identity-graph model (loop, enumeration, closure); extraction of the graph from live elements by correspondence"),
     "C20": ("Coq theorem by induction on the schema (parse_element returns an element => no refused keyword at any interpreted position), refused set and composition order regenerated from /repo, vm_compute correspondence + planting oracle",
             "C20_never_silently_ignored / C20_document are proved for every schema, nesting depth, parse state and Unicode oracle over the refused set and the "
             "composition-keyword order that the translator reads from /repo on every run; the model parser is tied to the code by running both on planted schemas; "
